@@ -8,6 +8,11 @@ props = [json.loads(l) for l in open(V / "properties.jsonl")]
 
 # id -> (category, technique, level text, level note, design ref)
 CHECKS = {
+ "C03": ("model_checking",
+         "TLA+ specification of the three evaluation paths of Transformed (log_prob / sample / sample_and_log_prob) over the exact combinator semantics with an exact-integer base distribution (Flows.tla), model-checked with TLC over nested expressions; every expression TLC prints is built from the real classes and all three methods (also after merge_transforms) compared with TLC's integers; real flows of all five factories checked against the property's statement via their public parts",
+         "TLC checks PathsAgree, MergeTransformsSame, CondPropagates and InverseExact on every nesting (depth <= 2 quick, <= 3 thorough) of conditional / unconditional exact bases with conditional / unconditional bijection layers (affine, additive-condition, chains, Invert, Scan, mapped Vmap). Each state is an implementation test with absolute expected values, so a sign flip applied consistently to both paths, a condition that does not reach a conditional base, or a reversed merge_transforms changes an exact integer. Real flows (5 factories x invert x condition x transformer x dim, perturbed parameters) are checked relationally with base_dist / bijection.",
+         "The exact base is a user-defined AbstractDistribution (public extension point) with a linear log-density and a deterministic draw; log-dets are log2-det * ln 2 compared to 1e-9. BNAF and the triangular spline flow are built under a harness-only equinox shim (DESIGN section 8); the BNAF joint-vs-log_prob comparison allows the bisection tolerance. The orientation a factory chooses is implementation-layer (drift note).",
+         "DESIGN.md 4.9, 5 (C03)"),
  "C06": ("model_checking",
          "TLA+ specification of NumPy broadcasting of batch shapes, the per-element (x slice, condition slice) index maps and the key assignment of the distribution vectoriser (Vectorize.tla), model-checked with TLC over a shape lattice; every configuration TLC prints is replayed on real distributions and each output element compared with the unbatched public call on the slices TLC designates",
          "TLC enumerates (event shape rank 0-2) x (condition shape none / rank 0-2) x (batch shapes of x and of the condition incl. size-1 axes, zero extents, pairs that must be rejected) x sample_shapes, checks the index maps are total, onto and aligned and the key map injective, and writes the maps out; the real log_prob / sample / sample_and_log_prob must have TLC's result shapes, every element must equal the unbatched call on the designated slices, draws must be pairwise distinct and reproducible, non-broadcastable pairs must raise.",
